@@ -33,6 +33,12 @@ def build(shape):
         th["QED"] = 0 if shape["qed"] == "zero" else 1
     if shape["aqed"] == "present":
         th["alphaqed"] = 0.007496
+    if shape["sv"] != "present":
+        # optional electroweak keys left out as well (the defaults are the runner's business, not the caller's dict's)
+        th.pop("MZ", None)
+        th.pop("SIN2TW", None)
+    if shape["ptodis"] != "absent":
+        th["TMC"] = 1       # target-mass corrections shift the kinematics internally: the caller's points stay what they were
     xg = cards.make_grid(3, 3, x_min=1e-2)
     tgt = dict(TARGET_DICT) if shape["target"] == "dict" else shape["target"]
     # (an observable without kinematic points is a legitimate card entry: it comes back as an empty list)
